@@ -313,7 +313,7 @@ def run_sweep(ctx, rng, direction, pid, enlarged=False):
                 stats['raised'] += 1
                 continue
             s = d if direction == 'forward' else 1.0 / d
-            dev = float(np.max(np.abs(a - s * b)) / np.max(np.abs(b)))
+            dev = float(np.max(np.abs(a - s * b)) / np.max(np.abs(s * b)))
             stats['dr'] += 1
             if not (dev <= 1e-12):
                 hits.append(mk_hit(pid, 'dr-scale', '%s:dr-scale:%s|%s' % (pid, method, sweep.optkey(opts)),
